@@ -550,6 +550,16 @@ func instancesOfGoal(pcIn []*Term, cands []*Term, goal *Term) []*Term {
 	for _, t := range s.pc {
 		visit(t)
 	}
+	// terms that first appear in an instance can trigger further facts: one more pass over the hypotheses with
+	// the instances' terms counted as occurring
+	if len(out) > 0 {
+		for _, t := range out {
+			mark(t)
+		}
+		for _, t := range s.pc {
+			visit(t)
+		}
+	}
 	// integer-valued applications that first appear in the instances (a permutation applied to a skolem index, say)
 	// are instantiation candidates in their turn, once
 	{
